@@ -185,8 +185,13 @@ class SigWorld(HistoryWorld):
             # a relay repeating one honest validator's message many times
             i = rng.randrange(n)
             ctx.fault('relay-repeats-signer')
+            renonce = rng.random() < 0.5
             for _ in range(rng.choice([2, 3, 7])):
-                sim.after(rng.randrange(8), net.send, 'collector', b'', {'op': {'op': 'arrive', 'v': i, 'kind': 'valid', 'bit': 0, 'spell': self._spell(rng, cfg, ctx)}})
+                o = {'op': 'arrive', 'v': i, 'kind': 'valid', 'bit': 0, 'spell': self._spell(rng, cfg, ctx)}
+                if renonce:
+                    o['nonce'] = 1 + rng.getrandbits(48)
+                    ctx.fault('signer-signs-again-with-a-fresh-nonce')
+                sim.after(rng.randrange(8), net.send, 'collector', b'', {'op': o})
         if n and rng.random() < 0.12:
             # a relay files one member's genuine signature under that member's ADNL address instead of its key hash (often next to
             # the properly filed one): that name is not a member id, whatever the descriptor form
@@ -223,6 +228,10 @@ class SigWorld(HistoryWorld):
         pub = bytes(key.verify_key)
         sig = key.sign(SIGN_MAGIC + blk.root_hash + blk.file_hash).signature
         node_id = hashlib.sha256(NODE_MAGIC + pub).digest()
+        if kind == 'valid' and op.get('nonce'):
+            # Ed25519 signatures are not unique per (key, message): a signer that picks its nonce at random (hardware signers, the
+            # hedged variant) gives ANOTHER genuine signature each time it is asked.  Same validator, same block, different 64 bytes
+            sig = _sign_with_nonce(key, SIGN_MAGIC + blk.root_hash + blk.file_hash, op['nonce'])
         if kind == 'wrong-length':
             # an Ed25519 signature is exactly 64 bytes: truncated, empty or extended fields are not signatures
             sig = [sig[:63], sig[:32], b'', sig + b'\x00', sig + sig, sig + SIGN_MAGIC + blk.root_hash + blk.file_hash][op['bit'] % 6]
@@ -426,6 +435,25 @@ class SigWorld(HistoryWorld):
 # =========================================================================================
 # C11
 # =========================================================================================
+
+def _sign_with_nonce(key, msg, nonce):
+    """A genuine Ed25519 signature of msg by key, made with the nonce scalar derived from `nonce` instead of the deterministic one."""
+    import nacl.bindings as nb
+    h = hashlib.sha512(bytes(key)).digest()
+    a = bytearray(h[:32])
+    a[0] &= 248
+    a[31] &= 127
+    a[31] |= 64
+    a = nb.crypto_core_ed25519_scalar_reduce(bytes(a) + bytes(32))
+    r = nb.crypto_core_ed25519_scalar_reduce(hashlib.sha512(b'nonce' + nonce.to_bytes(8, 'big') + msg).digest())
+    R = nb.crypto_scalarmult_ed25519_base_noclamp(r)
+    A = bytes(key.verify_key)
+    k = nb.crypto_core_ed25519_scalar_reduce(hashlib.sha512(R + A + msg).digest())
+    S = nb.crypto_core_ed25519_scalar_add(r, nb.crypto_core_ed25519_scalar_mul(k, a))
+    sig = R + S
+    key.verify_key.verify(msg, sig)      # harness self-check: it IS a valid signature
+    return sig
+
 
 DEVIATIONS = ['wrong-expected-hash', 'flip-data-bit', 'change-bit-length', 'swap-refs', 'drop-ref', 'dup-ref', 'flip-root-hash-field', 'substitute-pruned-hash',
               'root-ordinary', 'root-pruned', 'root-merkle-update', 'transit-bitflip']
